@@ -111,7 +111,7 @@ func ZZ_C12_goldilocks_scalar_mulWord() {
 
 // reduceOneWord: z' ≡ z + 2^448*x (mod order) and the result fits in 448 bits (no carry lost)
 //
-//zz: prop=C12 also=C05 tier=quick backend=lia timeout=300
+//zz: prop=C12 also=C05,C13 tier=quick backend=lia timeout=300
 func ZZ_C12_goldilocks_scalar_reduceOneWord() {
 	var z scalar64
 	zzFill("z", &z)
